@@ -7,8 +7,9 @@
     itself multiplexed and not a float; [wf_defaults]: start values inside the raw range;
     [wf_header]: the ID fits its format and the length is at most 8. *)
 From Coq Require Import ZArith List Bool.
-From CanVerif Require Import Can.Data Descriptor.Types Gen.Message Gen.MessageProofs Gen.History
-  Gen.Layout Gen.LayoutProofs Gen.RoundTrip Gen.HistoryProofs.
+From Flocq Require Import BinarySingleNaN.
+From CanVerif Require Import Can.Data Descriptor.Types Descriptor.Physical Gen.Message Gen.MessageProofs Gen.History
+  Gen.Layout Gen.LayoutProofs Gen.RoundTrip Gen.HistoryProofs Gen.HistoryPhys.
 Import ListNotations.
 Open Scope Z_scope.
 
@@ -71,6 +72,30 @@ Theorem C10_reachable : forall m ops,
   (exists a', unmarshal m (frame_of m a) (new_state m) = inr a' /\ frame_of m a' = frame_of m a).
 Proof. exact reachable_ok. Qed.
 Print Assumptions C10_reachable.
+
+(** PHYSICAL SETTERS. Set<Signal>(float64) stores T(FromPhysical(v)) ([phys_set_value], Flocq model of
+    pkg/descriptor FromPhysical + Go's truncating conversion). For a multi-bit integer signal of at most
+    52 bits whose scaling is in the class of C09 (finite non-zero factor, finite offset/min/max,
+    min <= max) and ANY non-NaN argument (+-Inf, subnormals, huge magnitudes included) the stored raw
+    value is inside the signal's raw range - composition with C09_saturation *)
+Theorem C10_physical_setter_in_range : forall s xbits,
+  wf_signal s ->
+  s_float s = false /\ 2 <= s_length s <= 52 /\
+  c09_class_f (sc s) (off s) (smin s) (smax s) = true /\ is_nan (f64_of_bits xbits) = false ->
+  in_range s (phys_set_value s xbits) = true.
+Proof. exact phys_set_value_in_range. Qed.
+Print Assumptions C10_physical_setter_in_range.
+
+(** all clauses for every state reachable through ANY finite history of raw setters, physical
+    setters, reset, copy-from and unmarshal on two instances *)
+Theorem C10_reachable_with_physical_setters : forall m ops,
+  wf_message m -> wf_mux m -> wf_defaults m -> wf_header m -> Forall (fun wo => opx_ok m (snd wo)) ops ->
+  let '(a, b) := runx m ops (new_state m, new_state m) in
+  inv (msg_signals m) a = true /\ inv (msg_signals m) b = true /\
+  frame_valid (frame_of m a) = true /\ frame_valid (frame_of m b) = true /\
+  (exists a', unmarshal m (frame_of m a) (new_state m) = inr a' /\ frame_of m a' = frame_of m a).
+Proof. exact reachable_ok_x. Qed.
+Print Assumptions C10_reachable_with_physical_setters.
 
 (** non-vacuity: a history on the example message of C03 *)
 From CanVerif Require Import Properties.C03.
